@@ -79,6 +79,18 @@ Proof.
 Qed.
 Print Assumptions c03_bad_complex_part_rejected.
 
+(* a part written twice in an externally mapped instance is reported whatever else the record holds (the second record
+   would silently replace the values of the first); with every part written once nothing changes *)
+Theorem c03_part_written_twice_reported : forall own named,
+  has_dup (map fst named) = true -> complex_sev_named own named <= SEVERITY_WARNING.
+Proof. exact complex_sev_named_dup. Qed.
+Print Assumptions c03_part_written_twice_reported.
+
+Theorem c03_parts_written_once_as_before : forall own named,
+  has_dup (map fst named) = false -> complex_sev_named own named = complex_sev own (map snd named).
+Proof. exact complex_sev_named_nodup. Qed.
+Print Assumptions c03_parts_written_once_as_before.
+
 Example c03_complex_example :
   (* UNIT_B(7) beside SI_B: tolerated *)
   complex_sev SEVERITY_NULL [(SEVERITY_NULL, [(SEVERITY_NULL, false)]); (SEVERITY_NULL, [(SEVERITY_NULL, false)]); (SEVERITY_WARNING, [(SEVERITY_WARNING, true)])] = SEVERITY_NULL /\
